@@ -502,6 +502,10 @@ pub fn check_main(engine: &dyn Engine, o: &CheckOptions) -> i32 {
         );
         return 2;
     }
+    if std::env::var("KV_REPLAY").is_err() {
+        // replay files are outputs of a run: start from a clean slate
+        let _ = std::fs::remove_dir_all(root.join("replays").join(&o.prop));
+    }
     let total = engine.total_cases(&o.prop, o.tier);
     let ncpu = std::thread::available_parallelism().map(|n| n.get()).unwrap_or(4);
     let nshards = std::env::var("KV_JOBS")
